@@ -164,21 +164,14 @@ Example remove_not_atomic_refuted :
 Proof. vm_compute. split; [reflexivity|]. intros [H|[H|[]]]; discriminate. Qed.
 
 (* C19b  map.update is read / call / write in separate sections: two concurrent increments of the
-   same key can both read 0 and both write 1 (lost update); sequentially the result is 2 *)
+   same key can both start from 0 and both write 1 (lost update); sequentially the result is 2 *)
 Example update_lost_update_refuted :
   let init := CM [] in let threads := [[MUpdate 7 1]; [MUpdate 7 1]] in
-  let sched := [0; 0; 0; 1; 1; 0; 1]%nat in
+  let sched := [0; 0; 1; 0; 1]%nat in
   fst (fst (run_case init threads sched)) = [1; 7; 1] /\
   ~ In (run_case init threads sched) (outcomes init threads [[0; 1]; [1; 0]]%nat) /\
   fst (fst (run_case_atomic init threads [0; 1]%nat)) = [1; 7; 2].
 Proof. vm_compute. split; [reflexivity|]. split; [|reflexivity]. intros [H|[H|[]]]; discriminate. Qed.
-
-(* C19b  ... and `map.get(&key).unwrap()` panics when the key is removed after the first check *)
-Example update_unwrap_refuted :
-  let init := CM [(7, 0)] in let threads := [[MUpdate 7 1]; [MRemove 7]] in
-  snd (fst (run_case init threads [0; 1; 0]%nat)) = [[enc_res RPanic]; [enc_res (RInt 0)]] /\
-  ~ In (run_case init threads [0; 1; 0]%nat) (outcomes init threads [[0; 1]; [1; 0]]%nat).
-Proof. vm_compute. split; [reflexivity|]. intros [H|[H|[]]]; discriminate. Qed.
 
 Local Close Scope Z_scope.
 
